@@ -7,7 +7,13 @@ with canonical-state de-duplication.  Every call's observation is compared with 
 grader with the same configuration and the effective expect value returns for the same input
 under the same RNG schedule (computed once, in a pristine process state).  Invariants in every
 state: author's configuration objects, process-wide defaults, the matrix negative-power switch,
-numpy error handling and class default_values all equal their pristine snapshots.
+numpy error handling and class default_values all equal their pristine snapshots; so does every other
+module-level / class-level container of the library (generic scan), and everything the process-wide parser
+remembers about an expression still equals what a parser used for nothing else says about it.
+
+Calls may carry keyword arguments (the attempt number for attempt-based credit) and an expect value that is
+present but empty.  A separate family drives the evaluator's shared parser through all ordered pairs of a
+small set of look-alike expressions in two scopes (later evaluation = evaluation with nothing remembered).
 """
 import copy
 import itertools
@@ -21,6 +27,7 @@ from .. import libstate
 import mitxgraders
 from mitxgraders import (StringGrader, FormulaGrader, NumericalGrader, MatrixGrader, SingleListGrader, ListGrader,
                          IntervalGrader, SumGrader)
+from mitxgraders.attemptcredit import ReciprocalCredit, GeometricCredit
 from mitxgraders.baseclasses import ObjectWithSchema, AbstractGrader, ItemGrader
 from mitxgraders.helpers.calc import mathfuncs as MF
 from mitxgraders.helpers.calc import expressions as X
@@ -29,16 +36,25 @@ from mitxgraders.helpers.math_helpers import MathMixin
 from mitxgraders.exceptions import MITxError
 
 PROPERTY = 'C11'
-RULE = ('all event sequences up to length 4 (canonical-state de-duplicated) over call events (expect x input, on the main '
-        'and on a second instance) and foreign events, per grader kind, with/without configured answers, debug off/on; '
-        'every transition is non-trivial (it is compared with a fresh grader)')
+RULE = ('all event sequences up to length 4 (canonical-state de-duplicated) over call events (expect x input [x attempt number '
+        'where the kind uses attempt-based credit], on the main and on a second instance) and foreign events, per grader kind, '
+        'with/without configured answers, debug off/on; every transition is non-trivial (it is compared with a fresh grader); '
+        'plus all ordered pairs of evaluations over a set of look-alike expressions x 2 scopes through the shared parser')
 EXPLANATION = ('states = distinct canonical states of (g1, g2, process-wide settings); transitions = events executed on '
                'the real objects; the reference for "which expect is in force" is a set-valued state machine kept beside it')
 ASSUMPTIONS = ['an expect value is in force after a call that returned; after a call that raised, either the old or the new '
                'expect may be in force (the statement says "last successfully supplied")',
                'an expect value that the grader class itself rejects at validation never comes into force',
                'RNG owned by the explorer with default answers, so a fresh grader sees the same samples',
-               'debug=True: lines "Expect value inferred to be ..." are removed before comparing with the fresh grader']
+               'debug=True: lines "Expect value inferred to be ..." are removed before comparing with the fresh grader',
+               'an expect value that is present but empty ("") counts as supplied (the statement distinguishes only "given" from '
+               '"none is given")',
+               'a dictionary returned by an author-supplied comparer object belongs to the author (it is part of what the '
+               'configuration object holds) and must come back unchanged',
+               'library-level tables holding voluptuous validator objects are exempt from the generic container scan (the '
+               'validators compile themselves on first use)',
+               'the reference for what the shared parser may remember about a text is a private parser instance of the same class '
+               'that has parsed nothing else (differential: remembered-and-shared vs. never shared)']
 
 NOEXPECT = '<none>'
 PARTIAL_ONLY = '<configured answers without a full-credit alternative>'
@@ -89,7 +105,48 @@ KINDS = {
                        inputs=dict(rightA='b,a', rightB='c,d', wrong='z,z', malformed='a,,b', nontext=5)),
     'Interval': dict(cls=IntervalGrader, extra=lambda: dict(), A='[1,2]', B='(0,1]', INV='[1',
                      inputs=dict(rightA='[1,2]', rightB='(0,1]', wrong='[5,6]', malformed='[1,2', nontext=5)),
+    # numbered variables: every call may name other members of the family (a_{1}, a_{2}, a_{3}); the names met in one call
+    # must not stay behind in the grader's list of variables / sampling sets
+    'FormulaNumbered': dict(cls=FormulaGrader, extra=lambda: dict(variables=['x'], numbered_vars=['a'],
+                                                                  sample_from={'x': [1, 3], 'a': [2, 4]}),
+                            A='x+a_{1}', B='a_{2}*x', INV='a_{1}+',
+                            inputs=dict(rightA='a_{1}+x', rightB='x*a_{2}', wrong='x+a_{3}', malformed='a_{+', nontext=5)),
+    # the call carries a keyword argument (the attempt number): reduced credit with a message, full credit, attempt 0, and a
+    # call WITHOUT the attempt number, which raises only after the grading itself is complete (a late raise)
+    'StringAttempt': dict(cls=StringGrader, extra=lambda: dict(attempt_based_credit=ReciprocalCredit(), wrong_msg='nope'),
+                          A='cat', B='dog', INV=5,
+                          inputs=dict(rightA='cat', rightB='dog', wrong='emu', malformed='cat', nontext=5),
+                          kwargs=dict(rightA={'attempt': 3}, rightB={'attempt': 1}, wrong={'attempt': 0}, malformed={},
+                                      nontext={'attempt': 2})),
 }
+# the kinds that get the empty-expect events (non-debug histories): the classes with their own __call__ / infer_from_expect
+# and the plain math grader; '' is accepted as an answer by some of them and rejected at validation by the others
+EMPTY_EXPECT = {'quick': ('String', 'SingleList'), 'thorough': ('String', 'Formula', 'SingleList', 'Interval')}
+# kinds that run in the thorough tier only (as histories with inferred answers; see families())
+THOROUGH_ONLY_INFERRED = ('FormulaNumbered',)
+# kinds whose histories run with configured answers only (the keyword argument of the call is independent of inference)
+NEVER_INFERRED = ('StringAttempt',)
+
+
+class VerdictTableComparer(object):
+    """
+    An AUTHOR's comparer object that answers with dictionaries it keeps itself (the same objects every time it is
+    asked): what the library does with a verdict afterwards (scaling by the answer's credit, adding messages) must not
+    be done on the author's own dictionaries.
+    """
+    def __init__(self):
+        self.verdicts = {True: {'grade_decimal': 1, 'msg': 'exact'}, False: {'grade_decimal': 0.5, 'msg': 'near miss'}}
+
+    def __call__(self, comparer_params_eval, student_eval, utils):
+        return self.verdicts[bool(utils.within_tolerance(comparer_params_eval[0], student_eval))]
+
+
+def _siblings_cfg(debug):
+    fg = FormulaGrader(variables=['x'])
+    # ONE subgrader object in both positions; the second answer refers to the first box
+    return dict(ordered=True, answers=['x+1', 'sibling_1^2'], subgraders=[fg, fg], debug=debug)
+
+
 CONFIGURED_ONLY = {
     'List': dict(cls=ListGrader, cfg=lambda debug: dict(answers=['cat', 'dog'], subgraders=StringGrader(), debug=debug),
                  inputs=dict(rightA=['cat', 'dog'], rightB=['dog', 'cat'], wrong=['x', 'y'], malformed=['cat'], nontext='cat')),
@@ -110,9 +167,42 @@ CONFIGURED_ONLY = {
                                        nontext='x')),
     'Sum': dict(cls=SumGrader, cfg=lambda debug: dict(answers=dict(lower='1', upper='3', summand='n', summation_variable='n'),
                                                      debug=debug),
-                inputs=dict(rightA=['1', '3', 'n', 'n'], rightB=['3', '1', 'm', 'm'], wrong=['1', '4', 'n', 'n'],
+                # (rightB: limits exchanged, another dummy variable, and a different function in every field, so that the sets
+                # of names which the shared parser remembers for the fields are neither empty nor equal)
+                inputs=dict(rightA=['1', '3', 'n', 'n'], rightB=['3*cos(0)', 'sin(0)+1', 'm*exp(0)', 'm'], wrong=['1', '4', 'n', 'n'],
                             malformed=['1', '3', 'n+', 'n'], nontext='n')),
+    # an ordered list whose second answer is written in terms of the FIRST box ('sibling_1'); both positions are graded by
+    # one and the same FormulaGrader object; an empty first box makes the second one ungradable (raises)
+    'ListSiblings': dict(cls=ListGrader, cfg=_siblings_cfg,
+                         inputs=dict(rightA=['x+1', '(x+1)^2'], rightB=['2*x', '4*x^2'], wrong=['x+1', 'x'],
+                                     malformed=['', 'x^2'], nontext='x')),
+    # an author's comparer OBJECT that hands out its own verdict dictionaries, on an answer worth half credit
+    'FormulaComparerObject': dict(cls=FormulaGrader,
+                                  cfg=lambda debug: dict(variables=['x'], samples=2,
+                                                         answers=({'expect': {'comparer': VerdictTableComparer(),
+                                                                              'comparer_params': ['x+1']},
+                                                                   'grade_decimal': 0.5, 'msg': 'listed'},),
+                                                         debug=debug),
+                                  inputs=dict(rightA='1+x', rightB='x+1.0', wrong='x', malformed='x+', nontext=5)),
+    # a debugging math grader TWO levels down (grouped inputs, nested ListGrader), below parents that may not be debugging
+    'NestedListDebugGrandchild': dict(cls=ListGrader,
+                                      cfg=lambda debug: dict(answers=[['x+1', '2*x'], ['3*x', 'x^2']],
+                                                             subgraders=ListGrader(subgraders=FormulaGrader(variables=['x'],
+                                                                                                            debug=True)),
+                                                             grouping=[1, 1, 2, 2], debug=debug),
+                                      inputs=dict(rightA=['x+1', '2*x', '3*x', 'x^2'], rightB=['x^2', '3*x', '2*x', '1+x'],
+                                                  wrong=['x', 'x', 'x', 'x'], malformed=['x+', 'x', 'x', 'x'], nontext='x')),
+    # attempt-based credit on a list (the per-box results are scaled)
+    'ListAttempt': dict(cls=ListGrader,
+                        cfg=lambda debug: dict(answers=['cat', 'dog'], subgraders=StringGrader(),
+                                               attempt_based_credit=GeometricCredit(), debug=debug),
+                        inputs=dict(rightA=['cat', 'dog'], rightB=['dog', 'cat'], wrong=['cat', 'y'], malformed=['cat', 'dog'],
+                                    nontext='cat'),
+                        kwargs=dict(rightA={'attempt': 1}, rightB={'attempt': 2}, wrong={'attempt': 3}, malformed={},
+                                    nontext={'attempt': 1})),
 }
+# configured-only kinds kept out of the quick tier
+THOROUGH_ONLY_CONFIGURED = ('ListAttempt',)
 
 
 def canon_author(x):
@@ -155,10 +245,10 @@ def normalise(obs):
     return obs
 
 
-def do_call(g, expect, inp):
+def do_call(g, expect, inp, kw=None):
     def body(ch):
         try:
-            return ('ok', g(expect, copy.deepcopy(inp)))
+            return ('ok', g(expect, copy.deepcopy(inp), **dict(kw or {})))
         except Exception as e:
             return ('err', type(e).__name__, str(e))
     ch, out = chooser.run_with(body)
@@ -257,16 +347,86 @@ pristine_library = libstate.pristine_library
 
 PRISTINE = None
 SAVED = None
+PRISTINE_LIBDIFF = None
 
 
 def pristine():
     """taken once per worker process, when this module is first used (before any history has run)"""
-    global PRISTINE, SAVED
+    global PRISTINE, SAVED, PRISTINE_LIBDIFF
     if PRISTINE is None:
         SAVED = save_globals()
         snapshot_library_state()
         PRISTINE = global_snapshot()
+        # what the generic scan of module-level / class-level containers reports in the pristine state (containers that
+        # cannot be compared with == are always listed); any OTHER entry later on is a changed process-wide container
+        PRISTINE_LIBDIFF = libstate.library_state_diff(canon)
     return PRISTINE
+
+
+def changed_library_containers(libdiff):
+    """
+    names of the library-level containers whose entry in the generic scan differs from the pristine scan (tables holding
+    voluptuous validator objects are left out: those objects compile themselves on first use, which is not a change of
+    any setting)
+    """
+    names = {str(e[0]) for e in set(libdiff) ^ set(PRISTINE_LIBDIFF or ())}
+    lazy = {str(e[0]) for e in (PRISTINE_LIBDIFF or ()) if "'voluptuous." in repr(e)}
+    # a container that is EMPTY when the library is imported is a cache / memo, not a table of settings: its growth only
+    # distinguishes search states (what it remembers is judged through the results of later calls), it is not a
+    # violation in itself -- a maintainer may add such a memo without breaking the property
+    memo = {str(name) for name, obj, saved in (libstate.LIB_STATE or ()) if not saved}
+    return sorted(names - lazy - memo)
+
+
+# ------------------------------------------------------------------ the shared parser's memory
+
+_PARSE_MEMO = {}
+_PRIVATE_PARSER = []
+
+
+def _tree_text(tree):
+    f = getattr(tree, 'as_list', None) or getattr(tree, 'asList', None)
+    return repr(f()) if f else repr(tree)
+
+
+def _describe_parsed(parsed):
+    return (tuple(sorted(parsed.variables_used)), tuple(sorted(parsed.functions_used)), tuple(sorted(parsed.suffixes_used)),
+            _tree_text(parsed.tree))
+
+
+def parser_cache_findings():
+    """
+    The library keeps every expression it has parsed in one process-wide parser object and hands the SAME parsed object
+    to every later call of every grader.  Each remembered entry must still say about its expression what a parser that
+    has never been used for anything else says (names of variables / functions / suffixes, and the tree).
+    Returns [(key, expected, found)] for the entries that do not.
+    """
+    cache = getattr(getattr(X, 'PARSER', None), 'cache', None)
+    if not isinstance(cache, dict):
+        return []
+    bad = []
+    for key, parsed in list(cache.items()):
+        if key not in _PARSE_MEMO:
+            if not _PRIVATE_PARSER:
+                _PRIVATE_PARSER.append(X.MathParser())
+            try:
+                _PARSE_MEMO[key] = _describe_parsed(_PRIVATE_PARSER[0].raw_parse(key))
+            except Exception as e:
+                _PARSE_MEMO[key] = ('<does not parse>', type(e).__name__)
+        try:
+            found = _describe_parsed(parsed)
+        except Exception as e:
+            found = ('<entry unusable>', type(e).__name__)
+        if found != _PARSE_MEMO[key]:
+            bad.append((key, _PARSE_MEMO[key], found))
+    return bad
+
+
+def forget_bad_parses(bad):
+    """drops the damaged entries, so that later histories of this worker are judged on their own"""
+    cache = getattr(getattr(X, 'PARSER', None), 'cache', None)
+    for key, _, _ in bad:
+        cache.pop(key, None)
 
 
 def diff_snapshot(a, b):
@@ -301,7 +461,16 @@ def foreign(name, sysm):
         elif name == 'third_grader_from_same_author_config':
             g3 = sysm.cls(sysm.author_cfg)
             k = sysm.spec
-            do_call(g3, k.get('B'), k['inputs']['rightB'])
+            do_call(g3, k.get('B'), k['inputs']['rightB'], k.get('kwargs', {}).get('rightB'))
+            # ... and a fourth one rebuilt from the VALIDATED configuration held by g1 (as authors do to derive a variant of
+            # a grader): whatever g4 does with the nested containers of that configuration must not reach g1
+            try:
+                g4 = sysm.cls(dict(sysm.g['g1'].config))
+            except MITxError:
+                g4 = None       # whether every validated configuration can be fed back is not this property's business
+            if g4 is not None:
+                do_call(g4, k.get('B'), k['inputs']['rightB'], k.get('kwargs', {}).get('rightB'))
+                do_call(g4, None, k['inputs']['malformed'], k.get('kwargs', {}).get('malformed'))
         elif name == 'other_graders_with_options':
             # unrelated graders that switch on the options which extend the default scope of names for themselves only
             do_call(FormulaGrader(answers='2k*f(q)', metric_suffixes=True, user_functions={'f': np.tan, 'sin': np.cos},
@@ -311,6 +480,13 @@ def foreign(name, sysm):
                                  user_constants={'v0': MathArray([1.0, 2.0])}), None, '[1,2]/1000')
             do_call(SumGrader(answers=dict(lower='1', upper='3', summand='2k*n', summation_variable='n'), metric_suffixes=True,
                               user_constants={'w': 1.5}), None, ['1', '3', '2000*n', 'n'])
+            # entry-by-entry partial credit replaces the default comparer of THAT grader only
+            do_call(MatrixGrader(answers='[1,2]', entry_partial_credit='proportional', entry_partial_msg='some entries'),
+                    None, '[1,3]')
+            do_call(MatrixGrader(entry_partial_credit=0.5), '[[1,2],[3,4]]', '[[1,2],[3,5]]')
+            # attempt-based credit with ANOTHER credit rule than any grader under test uses, for the same attempt numbers
+            for att in (1, 2, 3):
+                do_call(StringGrader(answers='cat', attempt_based_credit=GeometricCredit(factor=0.5)), None, 'cat', {'attempt': att})
             do_call(StringGrader(answers='Cat', case_sensitive=False, strip_all=True, accept_any=False), None, 'c a t')
             do_call(SingleListGrader(answers=['1k', '2'], subgrader=NumericalGrader(metric_suffixes=True), delimiter=';',
                                      partial_credit=False), None, '2;1000')
@@ -328,9 +504,18 @@ def foreign(name, sysm):
         elif name == 'subgrader_used_standalone':
             # the author's subgrader object is also used inside another, debugging, parent
             g1 = sysm.g['g1']
-            sub = g1.config.get('subgraders', g1.config.get('subgrader'))
-            subs = sub if isinstance(sub, list) else [sub]
-            for sg in subs:
+
+            def leaves(g):
+                # the item graders below g, through any depth of nested list graders (each object once)
+                sub = g.config.get('subgraders', g.config.get('subgrader'))
+                out = []
+                for sg in (sub if isinstance(sub, list) else [sub]):
+                    if isinstance(sg, ListGrader):
+                        out += leaves(sg)
+                    elif sg is not None and all(sg is not o for o in out):
+                        out.append(sg)
+                return out
+            for sg in leaves(g1):
                 if isinstance(sg, ItemGrader):
                     if isinstance(sg, (FormulaGrader, StringGrader)):
                         do_call(ListGrader(answers=['x+1', 'x+1'] if isinstance(sg, FormulaGrader) else ['cat', 'cat'],
@@ -415,8 +600,12 @@ class GraderHistory(BFSFamily):
                 except Exception as e:
                     self.fresh[key] = ('construct-failed', type(e).__name__, str(e))
                     return self.fresh[key]
-                self.fresh[key] = normalise(do_call(g, None, self.spec['inputs'][inkey]))
+                self.fresh[key] = normalise(do_call(g, None, self.spec['inputs'][inkey], self.call_kwargs(inkey)))
         return self.fresh[key]
+
+    def call_kwargs(self, inkey):
+        """keyword arguments that belong to the call with this input (the attempt number), if the kind has any"""
+        return self.spec.get('kwargs', {}).get(inkey)
 
     def expect_valid(self, e):
         if e not in self.valid:
@@ -437,6 +626,10 @@ class GraderHistory(BFSFamily):
         for e in exps:
             for i in inputs:
                 evs.append(('call', 'g1', e, i))
+        if not (self.simple or self.configured or self.debug) and self.kindname in EMPTY_EXPECT[tier]:
+            # an expect value that is given but EMPTY (falsy, yet not absent): it is the expect of that call like any other
+            for i in (('rightA', 'malformed') if tier == 'thorough' else ('rightA',)):
+                evs.append(('call', 'g1', 'EMPTY', i))
         for e, i in (('B', 'rightB'), ('none', 'rightA'), ('INV', 'malformed'), ('B', 'malformed')):
             if self.simple or self.configured:
                 e = 'none' if e != 'B' else ('B' if not self.simple else 'X')
@@ -455,6 +648,8 @@ class GraderHistory(BFSFamily):
             return None
         if ekey == 'X':
             return 'anything'
+        if ekey == 'EMPTY':
+            return ''
         return self.spec[ekey]
 
     def build(self, hist):
@@ -464,6 +659,7 @@ class GraderHistory(BFSFamily):
         s = System()
         s.cls = self.cls
         s.spec = self.spec
+        s.fam = self
         configured_answers = None
         if not self.simple and self.configured:
             configured_answers = PARTIAL_ONLY if self.configured == 'partial' else self.spec['A']
@@ -491,7 +687,7 @@ class GraderHistory(BFSFamily):
                 continue
             _, tgt, ekey, inkey = ev
             expect = self.expect_value(ekey)
-            raw = do_call(s.g[tgt], expect, self.spec['inputs'][inkey])
+            raw = do_call(s.g[tgt], expect, self.spec['inputs'][inkey], self.call_kwargs(inkey))
             obs = normalise(raw)
             s.obs.append(obs)
             s.verdicts.append(self.judge_call(s, tgt, ekey, expect, inkey, obs, raw))
@@ -543,7 +739,10 @@ class GraderHistory(BFSFamily):
         snap = global_snapshot()
         snap = dict(snap)
         snap.pop('DEFAULT_FUNCTIONS_ids', None)      # object identities are only meaningful inside one process
-        return (canon(s.g['g1'].__dict__), canon(s.g['g2'].__dict__), canon(snap), libstate.library_state_diff(canon),
+        libdiff = getattr(s, 'libdiff', None)
+        if libdiff is None:
+            libdiff = libstate.library_state_diff(canon)
+        return (canon(s.g['g1'].__dict__), canon(s.g['g2'].__dict__), canon(snap), libdiff,
                 tuple(sorted(map(str, s.possible['g1']))), tuple(sorted(map(str, s.possible['g2']))))
 
     def check_transition(self, hist, ev, s):
@@ -567,6 +766,23 @@ class GraderHistory(BFSFamily):
             restore_globals(SAVED)
             return viol('process-wide-setting-changed:' + ','.join(d), 'process-wide settings changed: %r' % d,
                         {k: repr(self.pristine[k])[:200] for k in d}, {k: repr(snap[k])[:200] for k in d})
+        # any other module-level / class-level container of the library (function tables of the matrix grader, suffix
+        # tables, schema option tables, ...), found by the generic scan: content must equal the pristine content
+        s.libdiff = libstate.library_state_diff(canon)
+        names = changed_library_containers(s.libdiff)
+        if names:
+            restore_library_state()
+            return viol('process-wide-setting-changed:library-container:' + ','.join(names),
+                        'module-level or class-level containers of the library changed: %r' % names,
+                        'content as in the pristine process', _short([e for e in s.libdiff if str(e[0]) in names]))
+        # the process-wide parser memory: what it remembers about an expression is shared by all later calls
+        bad = parser_cache_findings()
+        if bad:
+            forget_bad_parses(bad)
+            key, want, found = bad[0]
+            return viol('parser-memory-altered', 'the shared parser now remembers %r as %s; a parser used for nothing else '
+                        'gives %s (%d entr%s affected)' % (key, _short(found), _short(want), len(bad), 'y' if len(bad) == 1 else 'ies'),
+                        _short(want), _short(found))
         return None
 
 
@@ -637,6 +853,87 @@ class Scopes(Family):
             return Result('mutated', True, viol('scope-mutated', 'evaluating %r changed the scope dictionaries' % (self.describe(case),),
                                                 repr(before)[:300], repr(after)[:300]), len(case))
         return Result('unchanged', True, None, len(case))
+
+
+# ------------------------------------------------------------------ the shared parser remembers nothing but the parse
+
+PC_EXPRS = ['x+1', 'X+1', 'x + 1', '1+x', 'f(x)', 'F(x)', 'f(x)+sin(x)', 'sin(x)', '2k', '2K', '2*k', 'x+', '(x', 'x_{1}', "x'",
+            '[x,1]', '[x,1]*[x,1]', '1', '1.0', '1e3', '1E3', '', 'x^-1', 'sin(x', 'f(x)+f(x', 'x+1)']
+
+
+def _pc_scope(which):
+    if which == 0:
+        return ({'x': 2.0, 'X': 5.0, 'k': 7.0, "x'": 11.0, 'x_{1}': 13.0},
+                {'f': lambda t: t * 2, 'F': lambda t: t * 3, 'sin': np.sin}, {'k': 1000.0, 'K': 0.5, '%': 0.01})
+    # other values for the same names, another function under the same name, fewer names
+    return ({'x': 3.0, 'k': -1.0}, {'f': lambda t: t * 5, 'sin': np.cos}, {'%': 0.01})
+
+
+class ParserCache(Family):
+    name = 'parser_memory_pairs'
+    rule = ('%d expressions (same text in other case / spacing / number spelling, texts that do not parse, the same names as '
+            'variable, function and suffix) evaluated through the library evaluator in every ordered pair, each of the two in '
+            'either of two scopes (other values and another function under the same names; fewer names): the SECOND evaluation '
+            '(value, names reported as used, or the error) must equal the evaluation of the same text in the same scope with '
+            'nothing remembered, and afterwards every remembered expression must still describe itself as a parser used for '
+            'nothing else describes it; non-trivial = the two evaluations differ in text or in scope' % len(PC_EXPRS))
+
+    def setup(self, tier):
+        pristine()
+        self.ref = {}
+
+    def cases(self, tier):
+        n = len(PC_EXPRS)
+        for i in range(n):
+            for a in (0, 1):
+                yield (i, a)
+        for i in range(n):
+            for j in range(n):
+                for a in (0, 1):
+                    for b in (0, 1):
+                        yield (i, a, j, b)
+
+    def describe(self, case):
+        return [(PC_EXPRS[case[k]], 'scope%d' % case[k + 1]) for k in range(0, len(case), 2)]
+
+    @staticmethod
+    def _eval(i, a):
+        V, F, S = _pc_scope(a)
+        try:
+            val, meta = X.evaluator(PC_EXPRS[i], V, F, S, max_array_dim=1)
+            return ('ok', canon(val), tuple(sorted(meta.variables_used)), tuple(sorted(meta.functions_used)),
+                    tuple(sorted(meta.suffixes_used)), meta.max_array_dim_used)
+        except Exception as e:
+            return ('err', type(e).__name__, str(e))
+
+    def check(self, case):
+        case = tuple(case)
+        steps = [(case[k], case[k + 1]) for k in range(0, len(case), 2)]
+        cache = X.PARSER.cache
+        last = steps[-1]
+        if last not in self.ref:
+            cache.clear()
+            self.ref[last] = self._eval(*last)           # nothing remembered
+        cache.clear()
+        obs = None
+        for st in steps:
+            obs = self._eval(*st)
+        calls = len(steps) + 1
+        nontrivial = len(steps) == 1 or steps[0] != steps[1]
+        if obs != self.ref[last]:
+            return Result('differs', nontrivial,
+                          viol('parser-memory:later-evaluation-differs', 'after %r the evaluation of %r gives %s; with nothing '
+                               'remembered it gives %s' % (self.describe(case)[:-1], self.describe(case)[-1], _short(obs),
+                                                           _short(self.ref[last])), _short(self.ref[last]), _short(obs)), calls)
+        bad = parser_cache_findings()
+        if bad:
+            forget_bad_parses(bad)
+            key, want, found = bad[0]
+            return Result('memory-altered', nontrivial,
+                          viol('parser-memory:entry-altered', 'after %r the shared parser remembers %r as %s; a parser used for '
+                               'nothing else gives %s' % (self.describe(case), key, _short(found), _short(want)),
+                               _short(want), _short(found)), calls)
+        return Result(obs[0] if obs[0] == 'ok' else obs[1], nontrivial, None, calls)
 
 
 class RegisteredDefaults(Family):
@@ -738,17 +1035,24 @@ def families(tier):
             for debug in debug_opts:
                 if tier == 'quick' and configured and kind in ('Numerical', 'MatrixNoNegPow', 'Interval'):
                     continue
+                if kind in THOROUGH_ONLY_INFERRED and not configured and (tier == 'quick' or debug):
+                    continue        # (their debug logs are exercised by the configured variants)
+                if kind in NEVER_INFERRED and not configured:
+                    continue
                 fams.append(GraderHistory(kind, configured, debug))
     for kind in CONFIGURED_ONLY:
+        if tier == 'quick' and kind in THOROUGH_ONLY_CONFIGURED:
+            continue
         for debug in debug_opts:
             fams.append(GraderHistory(kind, True, debug))
     # configured answers none of which earns full credit (the expect argument is still ignored)
-    for kind in (('String', 'Formula') if tier == 'quick' else list(KINDS)):
+    for kind in (('String', 'Formula') if tier == 'quick' else [k for k in KINDS if k not in THOROUGH_ONLY_INFERRED + NEVER_INFERRED]):
         fams.append(GraderHistory(kind, 'partial', False))
     if tier == 'quick':
         # debug mode: a few kinds in the quick tier too (the log of one call must not reach the next one)
         for kind, configured in (('Formula', False), ('String', True), ('SingleList', False), ('List', True)):
             fams.append(GraderHistory(kind, configured, True))
     fams.append(Scopes())
+    fams.append(ParserCache())
     fams.append(RegisteredDefaults())
     return fams
